@@ -4,6 +4,7 @@
 package main
 
 import (
+	"bufio"
 	"crypto/sha1"
 	"encoding/json"
 	"flag"
@@ -17,6 +18,7 @@ import (
 	"time"
 
 	"golang.org/x/tools/go/ssa"
+	"golang.org/x/tools/go/ssa/ssautil"
 
 	"vf/symgo"
 )
@@ -336,7 +338,8 @@ func cmdCheck(args []string) int {
 	}
 	wall := time.Since(t0)
 	if !*noEvidence {
-		writeEvidence(*prop, *tier, seed, results, tracesOK, nViol, inconclusive, wall, loadT, *solver, knownSeen, known)
+		cov := writeCoverage(*prop, *repo, results)
+		writeEvidence(*prop, *tier, seed, results, tracesOK, nViol, inconclusive, wall, loadT, *solver, knownSeen, known, cov)
 	}
 	if exit == 0 {
 		tot := 0
@@ -765,7 +768,7 @@ func writeReplayDir(repo, prop string, hr *harnessResult, v *symgo.Violation, ld
 
 // ---------------- evidence ----------------
 
-func writeEvidence(prop, tier string, seed int, results []*harnessResult, tracesOK, nViol int, inconclusive []string, wall, loadT time.Duration, solver string, knownSeen map[string]bool, known []KnownFinding) {
+func writeEvidence(prop, tier string, seed int, results []*harnessResult, tracesOK, nViol int, inconclusive []string, wall, loadT time.Duration, solver string, knownSeen map[string]bool, known []KnownFinding, cov map[string]interface{}) {
 	states, transitions := 0, int64(0)
 	var samples []interface{}
 	var harnesses []interface{}
@@ -853,6 +856,7 @@ func writeEvidence(prop, tier string, seed int, results []*harnessResult, traces
 			"explanation":                   "states = feasible symbolic paths of the harnesses executed to completion over the real SSA of /repo (each path covers every input value satisfying its path condition); transitions = SSA instructions interpreted; every assertion on every path was sent to the solver as pc AND NOT(assertion)",
 			"harnesses":                     harnesses,
 			"functions_encoded_repo":        funcsRepo,
+			"anchor_file_coverage":          cov,
 			"functions_encoded_lib_count":   len(funcsLib),
 			"functions_encoded_lib":         libNames,
 			"models_and_stubs":              intr,
@@ -1036,4 +1040,144 @@ func staticFlagScan(ld *symgo.Loaded) (notes, violations []string) {
 	}
 	sort.Strings(notes)
 	return notes, violations
+}
+
+
+// ---------------- coverage of the anchored files ----------------
+
+// writeCoverage reports, for the source files the property is anchored in, which functions and basic blocks the
+// symbolic runs entered (union over the property's harnesses). It is a gap finder, not part of the verdict:
+// the report goes to /verif/coverage/<id>.txt and a per-file summary into the evidence.
+func writeCoverage(prop, repoDir string, results []*harnessResult) map[string]interface{} {
+	verifDir := verifRoot
+	anchors := map[string]bool{}
+	if f, err := os.Open(filepath.Join(verifDir, "properties.jsonl")); err == nil {
+		sc := bufio.NewScanner(f)
+		sc.Buffer(make([]byte, 1<<20), 1<<24)
+		for sc.Scan() {
+			var p struct {
+				ID      string `json:"id"`
+				Anchors struct {
+					Files []string `json:"files"`
+				} `json:"anchors"`
+			}
+			if json.Unmarshal(sc.Bytes(), &p) == nil && p.ID == prop {
+				for _, fn := range p.Anchors.Files {
+					anchors[fn] = true
+				}
+			}
+		}
+		f.Close()
+	}
+	type fcov struct {
+		file       string
+		line       int
+		total      int
+		hit        map[int]bool
+		blockLines map[int]int
+	}
+	funcs := map[string]*fcov{}
+	for _, hr := range results {
+		if hr.X == nil {
+			continue
+		}
+		hitBlocks := map[string]map[int]bool{}
+		for b := range hr.X.Blocks {
+			k := b.Parent().String()
+			if hitBlocks[k] == nil {
+				hitBlocks[k] = map[int]bool{}
+			}
+			hitBlocks[k][b.Index] = true
+		}
+		for fn := range ssautil.AllFunctions(hr.X.Prog) {
+			if fn.Blocks == nil || fn.Synthetic != "" {
+				continue
+			}
+			pos := hr.X.Prog.Fset.Position(fn.Pos())
+			if !pos.IsValid() || !strings.HasPrefix(pos.Filename, repoDir+"/") {
+				continue
+			}
+			rel := strings.TrimPrefix(pos.Filename, repoDir+"/")
+			if !anchors[rel] {
+				continue
+			}
+			k := fn.String()
+			fc := funcs[k]
+			if fc == nil {
+				fc = &fcov{file: rel, line: pos.Line, total: len(fn.Blocks), hit: map[int]bool{}, blockLines: map[int]int{}}
+				for _, b := range fn.Blocks {
+					for _, ins := range b.Instrs {
+						if ip := hr.X.Prog.Fset.Position(ins.Pos()); ip.IsValid() && ip.Filename == pos.Filename {
+							fc.blockLines[b.Index] = ip.Line
+							break
+						}
+					}
+				}
+				funcs[k] = fc
+			}
+			for i := range hitBlocks[k] {
+				fc.hit[i] = true
+			}
+		}
+	}
+	perFile := map[string][4]int{} // funcs hit, funcs, blocks hit, blocks
+	var names []string
+	for k := range funcs {
+		names = append(names, k)
+	}
+	sort.Slice(names, func(i, j int) bool {
+		a, b := funcs[names[i]], funcs[names[j]]
+		if a.file != b.file {
+			return a.file < b.file
+		}
+		return a.line < b.line
+	})
+	var sb strings.Builder
+	fmt.Fprintf(&sb, "# %s: functions of the anchored files entered by the symbolic runs (union over harnesses)\n", prop)
+	for _, k := range names {
+		fc := funcs[k]
+		pf := perFile[fc.file]
+		pf[1]++
+		pf[3] += fc.total
+		pf[2] += len(fc.hit)
+		if len(fc.hit) > 0 {
+			pf[0]++
+		}
+		perFile[fc.file] = pf
+		var miss []string
+		for i := 0; i < fc.total; i++ {
+			if !fc.hit[i] {
+				if l, ok := fc.blockLines[i]; ok {
+					miss = append(miss, fmt.Sprintf("L%d", l))
+				} else {
+					miss = append(miss, fmt.Sprintf("b%d", i))
+				}
+			}
+		}
+		status := "ENTERED"
+		if len(fc.hit) == 0 {
+			status = "NOT-ENTERED"
+			miss = nil
+		}
+		fmt.Fprintf(&sb, "%-11s %s:%d %s blocks %d/%d", status, fc.file, fc.line, k, len(fc.hit), fc.total)
+		if len(miss) > 0 {
+			if len(miss) > 24 {
+				miss = append(miss[:24], "...")
+			}
+			fmt.Fprintf(&sb, " not entered: %s", strings.Join(miss, " "))
+		}
+		sb.WriteString("\n")
+	}
+	os.MkdirAll(filepath.Join(verifDir, "coverage"), 0o755)
+	os.WriteFile(filepath.Join(verifDir, "coverage", prop+".txt"), []byte(sb.String()), 0o644)
+	out := map[string]interface{}{}
+	for f, v := range perFile {
+		out[f] = map[string]int{"functions_entered": v[0], "functions": v[1], "blocks_entered": v[2], "blocks": v[3]}
+	}
+	for f := range anchors {
+		if _, ok := out[f]; !ok {
+			out[f] = "no function of this file is in a package loaded by the harnesses"
+		}
+	}
+	return out
 }
